@@ -23,6 +23,21 @@ Findings are attributed by the trace spec itself (variable `quirks`: which named
 the run went through); what ends badly without one is reported as an unclassified violation.
 C13_FIXED=F8,F9,FCC (or a VERIF_MUTATION diff whose name contains these tags / ALL) validates against
 the repaired model - used to check candidate repairs.
+
+Follow-up b13 - three new dimensions:
+  * channel type: every close scenario with HTLC outputs also exists for anchor (zero-fee second level through the
+    sweeper) and simple-taproot channels ("alocal", "tcontest", ...; real taproot script trees / control blocks in the
+    fixtures, channel type read from the real channel db); every input handed to the sweeper is recorded with its
+    outpoint role and whether it carries a control block (Sweep lines, invariant SweepsSignable);
+  * outpoint-faithful chain: for zero-fee types the second-level tx that confirms is a sweeper-re-signed one (another
+    txid), spends are delivered per outpoint only, a sweep confirms only for a signable request of that outpoint, and
+    every spend registration of a resolver is recorded (Watch lines: must name an outpoint that Exists on the model's
+    chain - the output of the pre-signed tx never does);
+  * part M - spec/Arbitrator/ChainArb{,MC,Gen,Trace}.tla + harness/contractcourt/c13_chainarb_test.go: the real
+    ChainArbitrator.Start/loadPendingCloseChannels on a real channeldb with 1-3 pending-close channels of different
+    profiles (legacy/taproot, commit sweep / + HTLC timeout / + anchor), stops at every durable write, restarts;
+    after every write the durable state of EVERY channel is read back (pending/closed, log state, contracts, reports);
+    keys "C13:ChainArb:<invariant>:<event>".
 """
 import collections
 import copy
@@ -36,10 +51,14 @@ from ..core import Inconclusive
 SPEC = os.path.join(core.VERIF, "spec", "Arbitrator")
 LEVEL = "model_checking"
 PKG = "./contractcourt/"
-HARNESS = ["contractcourt/c13_test.go"]
 MC_WORKERS = int(os.environ.get("C13_MC_WORKERS", "4"))
-QUICK_SCEN = ["local", "remote", "localfar"]
-ALL_SCEN = ["local", "remote", "localfar", "contest", "claim", "success", "breach", "coop", "shift", "rshift"]
+HARNESS = ["contractcourt/c13_test.go", "contractcourt/c13_chainarb_test.go"]
+QUICK_SCEN = ["local", "remote", "localfar", "alocal", "tcontest", "tsuccess"]
+BASE_SCEN = ["local", "remote", "localfar", "contest", "rcontest", "claim", "success", "breach", "coop", "shift", "rshift"]
+TYPED = ["local", "remote", "contest", "rcontest", "claim", "success"]
+ALL_SCEN = BASE_SCEN + ["a" + x for x in TYPED] + ["t" + x for x in TYPED]
+M_SETS_QUICK = ["c1+c2", "c2+c3", "c1+c2+c3"]
+M_SETS_ALL = ["c2", "c1+c2", "c1+c3", "c2+c3", "c1+c2+c3"]
 QUIRKS = ("F8", "F9", "FCC")
 CONST = {"F8": "F8Fixed", "F9": "F9Fixed", "FCC": "FccFixed"}
 
@@ -430,12 +449,256 @@ def race_run(ck):
                      files={"go.out": os.path.join(res["dir"], "go.out")}, text=first[key])
 
 
+
+# ------------------------------------------------------------------------------------------------ part M
+# the start-up layer: ChainArbitrator with several pending-close channels (spec/Arbitrator/ChainArb*.tla)
+def m_is_reset(r):
+    return r.get("a") == "Reset"
+
+
+def m_model_checks(ck, thorough):
+    ncr = 2 if thorough else 1
+    r = ck.model_check(SPEC, "ChainArbMC", "ChainArbMC.cfg",
+                       "ChainArb: 1-3 pending-close channels, every interleaving, <= %d stops" % ncr,
+                       constants={"MaxCrashes": ncr}, workers=MC_WORKERS, timeout=1500, name="mc_chainarb")
+    shown = {}
+    for cfg, inv, what in (("ChainArbCross.cfg", "ClosedOnlyAfterOwnContracts",
+                            "control: a notification that resolves ANOTHER channel must break ClosedOnlyAfterOwnContracts"),
+                           ("ChainArbRep.cfg", "ReportsBelong",
+                            "control: a report filed under another channel must break ReportsBelong")):
+        c = ck.model_check(SPEC, "ChainArbMC", cfg, what, must_hold=False, workers=MC_WORKERS, timeout=600,
+                           name="mc_" + cfg.split(".")[0])
+        if inv not in (c.violation or ""):
+            raise Inconclusive("spec/Arbitrator/ChainArb: %s did not break %s (got %s)" % (cfg, inv, c.violation))
+        shown[inv] = dict(result="violated by the cross-channel control action, as it must", states=c.distinct)
+    ck.cov["chainarb_model"] = dict(states=r.distinct, transitions=r.generated, max_crashes=ncr, controls=shown)
+
+
+def m_plans_from_behaviours(files):
+    plans, seen = [], set()
+    for f in files:
+        hist = core.read_ndjson(f)
+        if not hist:
+            continue
+        cs = sorted(hist[0]["cs"])
+        order, crashes, n, last = [], [], 0, ""
+        for e in hist:
+            t = e["t"]
+            if t == "C":
+                crashes.append({"n": n, "v": "A" if last == "w" and n > 0 else "B"})
+            elif t == "R":
+                n = 0
+            elif t == "w":
+                n += 1
+            elif t == "d":
+                order.append([e["c"], e["k"]])
+            last = t
+        key = (tuple(cs), tuple(map(tuple, order)), tuple((c["n"], c["v"]) for c in crashes))
+        if crashes and key not in seen:
+            seen.add(key)
+            plans.append({"cs": cs, "order": order, "crashes": crashes})
+    return plans
+
+
+def m_execute(ck, env, name):
+    e = {"TMPDIR": "/dev/shm" if os.path.isdir("/dev/shm") else "/tmp",
+         "VERIF_C13_WORKERS": os.environ.get("C13_EXEC_WORKERS", "6")}
+    e.update(env)
+    res = ck.go_test(PKG, "^TestVerifC13ChainArb$", HARNESS, env=e, name=name, timeout=1800)
+    trace = os.path.join(res["dir"], "trace_m.ndjson")
+    pan = lnd_panic(res["out"])
+    if pan:
+        prog = os.path.join(res["dir"], "progress_m.log")
+        ck.violation("C13:ChainArb:panic:%s" % pan[0],
+                     "the real code panicked while the ChainArbitrator ran with several pending-close channels; top lnd "
+                     "frame %s" % pan[0],
+                     files={"go.out": os.path.join(res["dir"], "go.out"),
+                            "progress_m.log": prog if os.path.exists(prog) else None}, text=pan[1])
+        return None
+    if "HARNESS-ERROR" in res["out"]:
+        m = re.findall(r"HARNESS-ERROR (.*)", res["out"])
+        raise Inconclusive("ChainArb executor could not complete %d run(s) (environment, not judged): %s" % (len(m), m[:3]))
+    if res["rc"] != 0 or not os.path.exists(trace):
+        raise Inconclusive("ChainArb executor failed:\n" + res["out"][-3000:])
+    return trace
+
+
+def m_runs(recs):
+    runs, cur = [], None
+    for i, r in enumerate(recs):
+        if m_is_reset(r):
+            cur = dict(start=i, plan=r.get("plan", ""), cs=r.get("cs", []))
+            runs.append(cur)
+        cur["end"] = i + 1
+    return runs
+
+
+def m_plan_of(run):
+    cs, order, cr = (run["plan"].split("|") + ["", ""])[:3]
+    return {"cs": [x for x in cs.split("+") if x],
+            "order": [x.split(".") for x in order.split(",") if x],
+            "crashes": [{"n": int(x[:-1]), "v": x[-1]} for x in cr.split(",") if x]}
+
+
+def m_text(one):
+    out = []
+    for r in one:
+        chs = " ".join("%s[%s %s un=%s rp=%s]" % (c["id"], {1: "pending", 2: "closed"}.get(c["pd"], c["pd"]), c["st"],
+                                               ",".join("%s%s" % (u["k"], "*" if u["r"] else "") for u in c["un"]) or "-",
+                                               ",".join("%s@%s" % (x["k"], x["own"]) for x in c["rp"]) or "-")
+                       for c in r["chs"])
+        out.append("%-9s %-16s c=%-2s k=%-6s rc=%-2s cb=%d | %s" % (r["a"], r["w"], r["c"], r["k"], r["rc"], r["cb"], chs))
+    return "\n".join(out)
+
+
+def m_judge(ck, trace, tag, replay=False):
+    """Validate the batch; a rejection is reported (first one) - returns (recs, runs, rejected)."""
+    recs = core.read_ndjson(trace)
+    runs = m_runs(recs)
+    for r in recs:
+        if r["a"] == "Stall":
+            run = next(x for x in runs if recs.index(r) < x["end"])
+            d = ck.scratch("m_stall")
+            one = os.path.join(d, "trace_m.ndjson")
+            core.write_ndjson(one, recs[run["start"]:run["end"]])
+            pl = os.path.join(d, "plan_m.ndjson")
+            core.write_ndjson(pl, [m_plan_of(run)])
+            ck.violation("C13:ChainArb:no-progress:%s" % r["k"],
+                         "the live ChainArbitrator does not stop (plan %s)" % run["plan"],
+                         files={"trace_m.ndjson": one, "plan_m.ndjson": pl}, text=m_text(recs[run["start"]:run["end"]]))
+            return recs, runs, True
+    v = ck.validate(SPEC, "ChainArbTrace", "ChainArbTrace.cfg", trace, name="val_m_" + tag, timeout=1800)
+    if v["ok"]:
+        return recs, runs, False
+    line = v["line"] or 1
+    run = next((x for x in runs if x["start"] < line <= x["end"]), runs[-1])
+    bad = recs[min(line - 1, len(recs) - 1)]
+    d = ck.scratch("m_nonconform")
+    one = os.path.join(d, "trace_m.ndjson")
+    core.write_ndjson(one, recs[run["start"]:run["end"]])
+    pl = os.path.join(d, "plan_m.ndjson")
+    core.write_ndjson(pl, [m_plan_of(run)])
+    inv = (v["invariant"] or "?").replace("invariant ", "").replace("property ", "")
+    ck.violation("C13:ChainArb:%s:%s/%s" % (inv, bad.get("a"), bad.get("w") or bad.get("k")),
+                 "real ChainArbitrator with pending-close channels {%s} breaks spec/Arbitrator/ChainArb (%s) in run %s at line "
+                 "%d of the batch: event %s %s on channel %s (contract %s, report filed under %s); per-channel effects must "
+                 "land on the channel they belong to and a channel is marked fully closed only after all ITS contracts are "
+                 "resolved" % (",".join(run["cs"]), v["invariant"], run["plan"], line, bad.get("a"), bad.get("w"),
+                               bad.get("c") or "-", bad.get("k") or "-", bad.get("rc") or "-"),
+                 files={"trace_m.ndjson": one, "plan_m.ndjson": pl},
+                 text=m_text(recs[run["start"]:min(line + 1, run["end"])]) + "\n\n" + (v["cex"] or ""))
+    return recs, runs, True
+
+
+def m_negative_controls(ck, recs, runs):
+    """Corrupted recorded fields of an accepted multi-channel run must be rejected."""
+    cands = sorted((r for r in runs if len(r["cs"]) >= 2 and r["plan"].endswith("|")), key=lambda r: -len(r["cs"]))
+    ref = cands[0] if cands else None
+    if ref is None:
+        raise Inconclusive("ChainArb: no crash-free multi-channel run for the negative controls")
+    one = recs[ref["start"]:ref["end"]]
+    controls = []
+    # 1. the report of a checkpoint is found under ANOTHER channel
+    bad = copy.deepcopy(one)
+    i = next(j for j, r in enumerate(bad) if r.get("w") == "Checkpoint" and r.get("rc"))
+    src = bad[i]["c"]
+    dst = next(c for c in ref["cs"] if c != src)
+    for r in bad[i:]:
+        chs = {c["id"]: c for c in r["chs"]}
+        moved = [x for x in chs[src]["rp"] if x["k"] == bad[i]["k"]]
+        chs[src]["rp"] = [x for x in chs[src]["rp"] if x["k"] != bad[i]["k"]]
+        chs[dst]["rp"] = sorted(chs[dst]["rp"] + moved, key=lambda x: x["k"] + x["own"])
+    bad[i]["rc"] = dst
+    p = os.path.join(ck.out, "control_m_report.ndjson")
+    core.write_ndjson(p, bad)
+    v = ck.validate(SPEC, "ChainArbTrace", "ChainArbTrace.cfg", p, name="control_m_report")
+    if v["ok"] or "ReportsBelong" not in (v["invariant"] or ""):
+        raise Inconclusive("ChainArb negative control: misfiled report not rejected by ReportsBelong (%s)" % v["invariant"])
+    controls.append(dict(mutation="report of %s/%s moved under %s at line %d" % (src, bad[i]["k"], dst, i + 1),
+                         rejected_by=v["invariant"], at_line=v["line"]))
+    # 2. the fully-closed mark lands on a channel that still has unresolved contracts
+    bad = copy.deepcopy(one)
+    i = next((j for j, r in enumerate(bad) if r.get("w") == "MarkResolved"
+              and any(c["pd"] == 1 and c["un"] for c in r["chs"])), None)
+    if i is not None:
+        src = bad[i]["c"]
+        dst = next(c["id"] for c in bad[i]["chs"] if c["pd"] == 1 and c["un"])
+        for c in bad[i]["chs"]:
+            if c["id"] == src:
+                c["pd"] = 1
+            if c["id"] == dst:
+                c["pd"] = 2
+        bad[i]["c"] = dst
+        p = os.path.join(ck.out, "control_m_mark.ndjson")
+        core.write_ndjson(p, bad[:i + 1])
+        v = ck.validate(SPEC, "ChainArbTrace", "ChainArbTrace.cfg", p, name="control_m_mark")
+        if v["ok"] or "ClosedOnlyAfterOwnContracts" not in (v["invariant"] or ""):
+            raise Inconclusive("ChainArb negative control: misdirected fully-closed mark not rejected (%s)" % v["invariant"])
+        controls.append(dict(mutation="MarkChanFullyClosed of %s recorded on %s (unresolved contracts) at line %d" % (
+            src, dst, i + 1), rejected_by=v["invariant"], at_line=v["line"]))
+    # 3. a sweep input of the taproot channel without its control block
+    bad = copy.deepcopy(one)
+    i = next((j for j, r in enumerate(bad) if r["a"] == "Sweep" and r["cb"] == 1), None)
+    if i is not None:
+        bad[i]["cb"] = 0
+        p = os.path.join(ck.out, "control_m_cb.ndjson")
+        core.write_ndjson(p, bad[:i + 1])
+        v = ck.validate(SPEC, "ChainArbTrace", "ChainArbTrace.cfg", p, name="control_m_cb")
+        if v["ok"] or "SweepsSignable" not in (v["invariant"] or ""):
+            raise Inconclusive("ChainArb negative control: sweep without control block not rejected (%s)" % v["invariant"])
+        controls.append(dict(mutation="control block flag cleared on Sweep %s/%s at line %d" % (bad[i]["c"], bad[i]["k"], i + 1),
+                             rejected_by=v["invariant"], at_line=v["line"]))
+    ck.cov["chainarb_negative_controls"] = controls
+
+
+def part_m(ck, thorough):
+    m_model_checks(ck, thorough)
+    files = ck.generate(SPEC, "ChainArbGen", "ChainArbGen.cfg", 400 if thorough else 120, 200,
+                        constants={"NC": 3 if thorough else 2, "MaxCrashes": 3, "CrashOdds": 10},
+                        name="gen_chainarb", timeout=600)
+    plans = m_plans_from_behaviours(files)
+    pf = os.path.join(ck.out, "plans_m.ndjson")
+    core.write_ndjson(pf, plans)
+    sets = M_SETS_ALL if thorough else M_SETS_QUICK
+    trace = m_execute(ck, {"VERIF_C13M_SETS": ",".join(sets), "VERIF_C13M_ENUM": 1, "VERIF_C13M_PLANS": pf,
+                           "VERIF_C13M_RANDOM": 120 if thorough else 20}, "exec_m")
+    if trace is None:
+        return
+    recs, runs, rejected = m_judge(ck, trace, "all")
+    if not rejected:
+        m_negative_controls(ck, recs, runs)
+    writes = collections.Counter(r["w"] for r in recs if r["w"])
+    distinct = set()
+    for run in runs:
+        distinct.add(core.sha(str(run["cs"]) + str([(r["a"], r["w"], r["c"], r["k"]) for r in recs[run["start"]:run["end"]]])))
+    ck.cov["chainarb"] = dict(runs=len(runs), lines=len(recs), from_model_behaviours=len(plans),
+                              per_channel_set=dict(collections.Counter("+".join(r["cs"]) for r in runs)),
+                              multi_crash=sum(1 for r in runs if len(m_plan_of(r)["crashes"]) > 1),
+                              write_kinds_executed=dict(writes), distinct_interleavings=len(distinct),
+                              rejected=rejected)
+    ck.cov["evaluations"] += len(recs)
+    ck.cov["traces_validated_against_impl"] += len(runs)
+    ck.cov["distinct_nontrivial"] += len(distinct)
+    for run in runs[:1]:
+        ck.cov["samples"].append({"chainarb_plan": run["plan"],
+                                  "events": ["%s:%s:%s" % (r["a"], r["w"] or r["k"], r["c"]) for r in
+                                             recs[run["start"]:run["end"]]][:60]})
+
+
 def run(ck):
     thorough = ck.tier == "thorough"
     fx = fixed_set()
     if fx:
         ck.notes.append("validated against the model with repaired: %s" % ",".join(sorted(fx)))
     if getattr(ck, "replay", None):
+        planm = os.path.abspath(os.path.join(ck.replay, "plan_m.ndjson"))
+        if os.path.exists(planm):
+            cs = core.read_ndjson(planm)[0]["cs"]
+            trace = m_execute(ck, {"VERIF_C13M_SETS": "+".join(cs), "VERIF_C13M_ENUM": 0, "VERIF_C13M_PLANS": planm}, "replay_m")
+            if trace is not None:
+                recs, runs, _ = m_judge(ck, trace, "replay", replay=True)
+                ck.cov.update(states=1, transitions=1, evaluations=len(recs), traces_validated_against_impl=len(runs))
+            return
         plan = os.path.abspath(os.path.join(ck.replay, "plan.ndjson"))
         if not os.path.exists(plan):
             raise Inconclusive("no plan.ndjson in %s" % ck.replay)
@@ -498,6 +761,12 @@ def run(ck):
                                   "deviations": sorted(verdicts[k][1]),
                                   "events": [(r["a"] + ":" + (r["w"] or r["k"] or r["h"])) for r in
                                              recs[run_["start"]:run_["end"]] if r["a"] != "Block"][:60]})
+    if not os.environ.get("C13_NO_CHAINARB"):
+        part_m(ck, thorough)
+    ck.cov["rule"] += ("; part M (ChainArb): one run = 1-3 pending-close channels of different profiles driven to the end by "
+                       "the real ChainArbitrator under a stop plan + an order of sweep confirmations (every single stop point "
+                       "for two orders, plans from TLC-simulated behaviours of ChainArbGen, seeded random plans); distinct = "
+                       "distinct (channel set, sequence of recorded events) hashes")
     ck.cov["trusted_base"] = [
         "TLC 1.8.0, CommunityModules Json",
         "executor: durable writes outside the arbitrator log (MarkChannelClosed, MarkCommitmentBroadcasted, nursery, "
@@ -505,10 +774,18 @@ def run(ck):
         "restart protocol mirrors ChainArbitrator.Start (IsPendingClose/CloseType/ClosingHeight iff marked closed, close "
         "event re-delivered otherwise, stored closing tx republished)",
         "projection: decoding the contracts bucket with lnd's own decoders (kind, outputIncubating, resolved)",
-        "notifier model: tip on epoch registration, historical spend dispatch"]
+        "notifier model: tip on epoch registration, historical spend dispatch, spends delivered per outpoint only; sweeper "
+        "model: a sweep confirms only for a signable request of that outpoint (taproot: control block present), zero-fee "
+        "second-level txs confirm as re-signed aggregated txs with another txid; outpoint roles named by table lookup",
+        "part M: initial durable state of a pending-close channel written through lnd's own LogContractResolutions / "
+        "InsertConfirmedCommitSet / CloseChannel (what the close handler persists); write attribution read off the database "
+        "(log scope key of the transaction, diff of the per-channel projection)"]
     ck.assumptions += [
-        "one channel, <= 1 resolver per kind; HTLC universe: offered with output, offered dust, received dust, received "
-        "with output and known preimage; legacy (non-anchor) second-level paths; no anchors, no commit-sweep resolver",
+        "single-channel part: <= 1 resolver per kind; HTLC universe: offered with output, offered dust, received dust, "
+        "received with output and known preimage; channel types legacy / anchor (zero-fee) / simple taproot for the scenarios "
+        "with HTLC outputs; the anchor is never swept; no commit-sweep resolver there (part M has it)",
+        "part M: channels c1 (legacy, commit sweep), c2 (legacy, + expired offered HTLC), c3 (taproot, + anchor), all closed "
+        "by the remote commitment, start state = right after the close handler's three writes; no blocks are fed",
         "a crash loses exactly the volatile state; every kvdb Update and every external durable effect is atomic",
         "the exhaustive run of the repaired design assumes that StateWaitingFullResolution is committed before a resolver "
         "checkpoints (CommitBeforeCheckpoint, H3 - the run without it exhibits the overwrite); trace validation does not",
